@@ -1847,3 +1847,6 @@ mod test {
         assert!(!cache.contains(&1));
     }
 }
+
+#[cfg(feature = "verif-hooks")]
+mod verif;
